@@ -223,6 +223,7 @@ def judge(case, rec):
     sv, q = case["survey"], case["query"]
     resp = zz9enc.encode(sv, q)
     part = lib.cube(resp, case["transforms"]).partitions[0]
+    lib.warm(part, case.get("warmup"))
     orc = Oracle(sv, q)
     rec.event("shape=" + "x".join(case["shape"]))
     meta = case["meta"]
